@@ -99,22 +99,67 @@ def model_fails(f):
     return rj != [H.norm(n) for n in m["collapse"]]
 
 
-def alt_api_case(seed, i):
+def deep_spine_forest(rng):
+    """two to four adjacent elements that are (nearly) the same long chain of nested elements -- the shape a long style-map
+    path gives to consecutive paragraphs -- 2 to 48 levels deep: the merge rule has to be applied recursively all the way
+    down.  Each level of each chain rarely deviates from the common spine (fresh, other name, spine name as a non-first
+    alternative, other attributes, a separator), chains may stop early or go on below the spine, and a level may have a
+    text / element before the chain's next element."""
+    pool = rng.sample(["ul", "ol", "div", "li", "section", "span", "p"], rng.choice([1, 2, 3]))
+    depth = rng.choice([2, 4, 6, 8, 9, 10, 11, 11, 12, 12, 13, 14, 16, 20, 25, 32, 48])
+    p_dev = rng.choice([0.0, 0.01, 0.03, 0.08])
+    spine = [H.T([rng.choice(pool)], [["class", "l%d" % rng.randint(0, 2)]] if rng.random() < 0.3 else [], True,
+                 rng.choice(["", "-", "\n"]) if rng.random() < 0.03 else None) for _ in range(depth)]
+
+    def chain(label):
+        d = depth if rng.random() < 0.7 else rng.randint(1, depth + 3)
+        r = rng.random()
+        node = [{"t": "text", "v": label}] if r < 0.6 else [H.el(H.T(["p"], c=False), [{"t": "text", "v": label}])] if r < 0.9 else []
+        for level in reversed(range(d)):
+            t = copy.deepcopy(spine[level]) if level < depth else H.T([rng.choice(pool)])
+            if rng.random() < p_dev:
+                r = rng.random()
+                if r < 0.3:
+                    t["c"] = False
+                elif r < 0.5:
+                    t["names"] = [rng.choice(["em", "b"])] + (t["names"] if rng.random() < 0.6 else [])
+                elif r < 0.7:
+                    t["names"] = t["names"] + [rng.choice(["em", "b"])]
+                elif r < 0.85:
+                    t["attrs"] = [["class", "other"]]
+                else:
+                    t["sep"] = rng.choice(["", "-"])
+            if rng.random() < p_dev:
+                node = [rng.choice([{"t": "text", "v": " "}, {"t": "text", "v": "x"}, H.el(H.T([rng.choice(pool)]), [])])] + node
+            node = [H.el(t, node)]
+        return node
+    out = []
+    for i in range(rng.choice([2, 2, 3, 4])):
+        out += chain("abcd"[i])
+    return out
+
+
+def alt_api_case(seed, i, deep=False):
     """a document that makes the converter build a forest of nested elements which merge through `|` alternatives:
     every paragraph gets a path of 1-3 elements and every run a path of 0-2 elements over a pool of three tag names
     (alternatives in any order, :fresh flags); a path is biased towards merging into what will be next to it -- the
     previous paragraph's path (or a prefix of it), the previous run's wrapper, or, for the first run of a paragraph whose
     path is a prefix of the previous paragraph's, the next element of that longer path -- by the same first name or
     by a NON-first alternative.  Every distinct path becomes a style with its own style-map line; some runs hold white
-    space only."""
+    space only.
+    deep=True: paragraph paths of 5-20 elements (user style maps for deeply nested lists / wrappers), rarely fresh, that
+    follow the previous paragraph's path closely, so that adjacent paragraphs have to merge along a long spine."""
     from gen_docx import el
-    rng = random.Random(seed * 1000003 + 700000 + i)
+    rng = random.Random(seed * 1000003 + (800000 if deep else 700000) + i)
     pool = rng.sample(["div", "ul", "ol", "li", "section", "span"], 3)
     p_fresh = rng.choice([0.1, 0.2, 0.3])
+    if deep:
+        p_fresh = rng.choice([0.0, 0.02, 0.05])
+    p_follow = 0.97 if deep else 0.75
 
     def tag(target):
         names = rng.sample(pool, rng.choice([1, 1, 2, 2, 3]))
-        if target is not None and rng.random() < 0.75:
+        if target is not None and rng.random() < p_follow:
             tn = target[0][0]
             others = [n for n in pool if n != tn]
             r = rng.random()
@@ -129,10 +174,10 @@ def alt_api_case(seed, i):
     for _ in range(rng.randint(2, 5)):
         prev = paras[-1] if paras else None
         if prev is not None and rng.random() < 0.7:
-            k = rng.randint(1, len(prev[0]))
+            k = len(prev[0]) if deep and rng.random() < 0.6 else rng.randint(1, len(prev[0]))
             ppath = [tag(t) for t in prev[0][:k]] + [tag(None) for _ in range(rng.choice([0, 0, 0, 1]))]
         else:
-            ppath = [tag(None) for _ in range(rng.randint(1, 3))]
+            ppath = [tag(None) for _ in range(rng.choice([5, 8, 9, 10, 11, 12, 12, 13, 14, 16, 20]) if deep else rng.randint(1, 3))]
         runs = []
         for _ in range(rng.choice([0, 1, 2, 2, 3, 3])):
             if runs and runs[-1][0]:
@@ -180,7 +225,7 @@ def alt_api_case(seed, i):
         opts["ignoreEmpty"] = False
     if rng.random() < 0.2:
         opts["includeDefault"] = False
-    return {"parts": parts, "options": opts, "features": ["alt-paths"], "key": "c04a-%d-%d" % (seed, i)}
+    return {"parts": parts, "options": opts, "features": ["alt-paths"], "key": "c04%s-%d-%d" % ("d" if deep else "a", seed, i)}
 
 
 def run(out, tier, seed, model_ok):
@@ -198,7 +243,11 @@ def run(out, tier, seed, model_ok):
     forests += [(f, "alt-neighbourhood") for f in H.alt_neighbourhoods()]
     for _ in range(common.deepen(1500 if tier == "quick" else 20000)):
         forests.append((H.random_forest_alts(rng, max_nodes=rng.choice([8, 20, 40])), "random-alts"))
+    # long matching spines: the recursion of the merge rule at any depth (forests and, below, deep style-map paths through the API)
+    for _ in range(common.deepen(400 if tier == "quick" else 5000)):
+        forests.append((deep_spine_forest(rng), "deep-spine"))
     alt_cases = [alt_api_case(seed, i) for i in range(common.deepen(150 if tier == "quick" else 2000))]
+    alt_cases += [alt_api_case(seed, i, deep=True) for i in range(common.deepen(60 if tier == "quick" else 800))]
     # forests the converter really builds: captured from conversions with nested, separated paths
     log = []
     napi = common.deepen(250 if tier == "quick" else 3000)
@@ -253,7 +302,7 @@ def run(out, tier, seed, model_ok):
                 "observations on the real code; non-trivial = at least one merge happened" % (3 if tier == "quick" else 4))
     out.rule += ("; plus all two-level neighbourhoods [P1[L], P2[c1, c2]] over three names with `|` alternatives in both orders x fresh x four ways for P2 to (not) merge, "
                  "random forests over 2-4 names per forest with alternatives and white-space-only text nodes between mergeable elements, and conversions of documents whose "
-                 "paragraph/run styles map to paths with alternatives (whole result compared with the model, forests captured)")
+                 "paragraph/run styles map to paths with alternatives (whole result compared with the model, forests captured); plus 2-4 adjacent near-identical chains 2-48 levels deep (rare per-level deviations) and conversions with style-map paths of 5-20 elements")
     out.extra.update(exhaustive=False, exhaustive_part=exhaustive_n, api_forests=api_forests, random_forests=len(forests) - exhaustive_n - api_forests)
     for f, origin in forests[exhaustive_n:exhaustive_n + 2] + forests[-2:]:
         out.sample({"origin": origin, "forest": f})
